@@ -203,7 +203,7 @@ func runC07(c *Ctx) {
 		c.J.Log("CASE %s %s", Case("sc", idx), sc.String())
 		o := runLife(c, sc, "C07", procs, salt, idx)
 		reportLife(c, "C07", "sc", idx, sc, o)
-		if o.Inconclusive != "" || c.R.NumViolations() > 12 {
+		if o.Inconclusive != "" || c.R.NumViolations() > 6 {
 			return
 		}
 		if o.Nontrivial && o.Fingerprint != "" {
